@@ -5,7 +5,6 @@ From V Require Import Model.TzParser Model.TzRule Model.TzLookup Model.C05.
 From V Require Model.DateTime.
 Import ListNotations.
 Open Scope Z_scope.
-Set Default Timeout 20.
 
 (** * The result contract: MappedLocalTime::{single, earliest, latest} *)
 Lemma mlt_single_spec {A} (m : mlt A) (x : A) :
